@@ -1504,6 +1504,35 @@ Theorem thm_sweep_counts_down : forall (A : Type) (g : Z) (st : state A) (c : cl
   (c_c c = 1 -> lookup g (sweep st) = None).
 Proof. intros. split; intros; [now apply sweep_counts_down | now apply (sweep_removes_last g st c)]. Qed.
 
+(* one wake-up, exactly: every group keeps or loses its cluster according to ITS OWN counter, nothing else changes *)
+Theorem thm_sweep_removes_exactly : forall (A : Type) (st : state A), NoDup (map fst st) -> forall g,
+  lookup g (sweep st) =
+  match lookup g st with
+  | Some c => if u8 (c_c c - 1) =? 0 then None
+              else Some (mkCluster (c_max c) (c_e c) (u8 (c_c c - 1)) (c_data c))
+  | None => None
+  end.
+Proof.
+  intros A st Hwf g. destruct (lookup g st) as [c|] eqn:L.
+  - now apply lookup_sweep_some.
+  - now apply lookup_sweep_none.
+Qed.
+
+(* and as sets of group ids: the groups after a wake-up are exactly those whose counter did not reach 0 *)
+Theorem thm_sweep_keys_exactly : forall (A : Type) (st : state A), NoDup (map fst st) -> forall g,
+  In g (map fst (sweep st)) <-> exists c, lookup g st = Some c /\ u8 (c_c c - 1) <> 0.
+Proof.
+  intros A st Hwf g. pose proof (thm_sweep_removes_exactly A st Hwf g) as H.
+  split.
+  - intros Hin. destruct (lookup g (sweep st)) as [c'|] eqn:L'.
+    + destruct (lookup g st) as [c|] eqn:L; [|discriminate].
+      exists c. split; [reflexivity|]. destruct (Z.eqb_spec (u8 (c_c c - 1)) 0); [discriminate | assumption].
+    + exfalso. apply lookup_none_notin in L'. contradiction.
+  - intros (c & L & Hc). rewrite L in H. replace (u8 (c_c c - 1) =? 0) with false in H by lia.
+    destruct (in_dec Z.eq_dec g (map fst (sweep st))) as [Hin|Hn]; [assumption|].
+    apply lookup_none_notin in Hn. rewrite Hn in H. discriminate.
+Qed.
+
 Theorem thm_reassemble_pos0_refuted : exists (F g self : Z) (n : packet Z) (evs : list (ev Z)),
   HeaderSize <= F /\ 0 <= p_tags n /\ F < size n /\ nfrag F n <= 65535 /\ addressed self n /\
   Permutation (own_pkts g evs) (split F g n) /\ paced g evs = true /\
